@@ -40,6 +40,14 @@ fn child(args: &[String]) {
                 });
             harness::run_child(bound, max_secs, move || c12::body(&spec));
         }
+        "C11" => {
+            c12::set_for_c11();
+            let spec = c12::catalogue_c11(thorough).into_iter().find(|s| s.name == name).unwrap_or_else(|| {
+                eprintln!("unknown harness {name}");
+                std::process::exit(2)
+            });
+            harness::run_child(bound, max_secs, move || c12::body(&spec));
+        }
         "C04" | "C05" | "C06" => {
             let spec = client_h::catalogue(prop, thorough)
                 .into_iter()
@@ -226,6 +234,23 @@ fn main() {
     };
     match prop.as_str() {
         "C12" => run_c12(tier),
+        "C11" => {
+            let specs = c12::catalogue_c11(tier == Tier::Thorough);
+            let samples: Vec<_> = specs.iter().take(3).map(|s| json!({"harness": s.name, "waiter": format!("{:?}", s.waiter), "signaller_threads": format!("{:?}", s.threads)})).collect();
+            run_catalogue(
+                "C11",
+                tier,
+                specs.iter().map(|s| (s.name.clone(), if s.threads.len() >= 3 { Some(tier.pick(2, 3)) } else { None })).collect(),
+                Some(tier.pick(3, 4)),
+                "C11:concurrent:missed-wakeup",
+                samples,
+                "concurrent part of C11: 1 waiter (credit / reconnect / oversized credit) + 2..3 threads of which at least two cancel with different reasons (plus acks, resumes, an advance racing them) over the real stream.rs under loom DPOR with the stated preemption bound; the waiter's result and the reason read once every thread has finished must be explained by one sequential order of the operations (the first cancel of that order is the reason everywhere)",
+                &[
+                    "loom explores sequentially consistent interleavings at lock/condvar/atomic granularity up to the preemption bound",
+                    "the sequential part of C11 (every operation sequence up to the depth bound against the reference model) is the mc engine's",
+                ],
+            )
+        }
         "C04" | "C05" | "C06" => {
             let id: &'static str = match prop.as_str() { "C04" => "C04", "C05" => "C05", _ => "C06" };
             let specs = client_h::catalogue(id, tier == Tier::Thorough);
